@@ -170,11 +170,15 @@ def certs():
     Returns {"cert": pem_path, "key": pem_path}."""
     cert, key = CERT_DIR + "/cert.pem", CERT_DIR + "/key.pem"
     with _FileLock(CACHE + "/certs.lock"):
-        if not (os.path.isfile(cert) and os.path.isfile(key) and os.path.getsize(cert) > 0):
+        fresh = (os.path.isfile(cert) and os.path.isfile(key) and os.path.getsize(cert) > 0
+                 and time.time() - os.path.getmtime(cert) < 20 * 86400)
+        if not fresh:
             os.makedirs(CERT_DIR, exist_ok=True)
             p = subprocess.run(
                 ["openssl", "req", "-x509", "-newkey", "rsa:2048", "-nodes", "-keyout", key, "-out", cert,
-                 "-days", "30", "-subj", "/CN=localhost", "-addext", "subjectAltName=DNS:localhost,IP:127.0.0.1"],
+                 "-days", "30", "-subj", "/CN=localhost", "-addext", "subjectAltName=DNS:localhost,IP:127.0.0.1",
+                 # rustls/webpki refuses a CA certificate as end entity (CaUsedAsEndEntity)
+                 "-addext", "basicConstraints=critical,CA:FALSE"],
                 stdout=subprocess.PIPE, stderr=subprocess.STDOUT, timeout=120)
             if p.returncode != 0:
                 raise InfraError("openssl failed: " + p.stdout.decode("utf-8", "replace")[-1000:])
@@ -515,7 +519,7 @@ class Deployment:
         with _live_lock:
             _live.add(self)
         env = dict(os.environ)
-        env.setdefault("RUST_BACKTRACE", "1")
+        env["RUST_BACKTRACE"] = str(self.spec.get("rust_backtrace", "0"))
         env.pop("SSLKEYLOGFILE", None)
         slog = open(self.dir + "/server.log", "wb")
         self._logf.append(slog)
@@ -1385,14 +1389,21 @@ def run_tcp_flow(dep, target, handshake_kind, script, deadline=DEFAULT_DEADLINE,
         if first_close is not None:
             # after one side ended, the other side must see the end of the stream
             if not app_closed:
-                obs["app_end"] = app.wait_end(deadline if c is not None else 0.2)
+                app.wait_end(deadline if c is not None else 0.2)
             if c is not None and not target_closed:
-                obs["target_end"] = c.wait_end(deadline)
-        else:
-            if app.ended:
-                obs["app_end"] = "eof" if app.eof_at is not None else "rst"
-            if c is not None and c.ended:
-                obs["target_end"] = "eof" if c.eof_at is not None else "rst"
+                c.wait_end(deadline)
+
+        def end_of(conn):
+            # what the peer did, as far as it was seen before we closed ourselves
+            if conn is None:
+                return None
+            if conn.eof_at is not None:
+                return "eof"
+            if conn.rst_at is not None:
+                return "rst"
+            return None
+        obs["app_end"] = end_of(app)
+        obs["target_end"] = end_of(c)
         obs["app_eof"] = obs["app_end"] == "eof"
         obs["target_eof"] = obs["target_end"] == "eof"
         obs["app_closed_first"] = (first_close == "app") if first_close else None
@@ -1442,3 +1453,246 @@ def check_transparent(obs, expect_app_eof=True, expect_target_eof=False):
 def flow_observation(obs):
     """JSON-friendly copy of a run_tcp_flow observation (byte strings summarised)."""
     return jsonable(obs)
+
+
+# --------------------------------------------------------------------------------------------
+# UDP exchange runner
+# --------------------------------------------------------------------------------------------
+
+class UdpApp:
+    """A local application's UDP socket with a recorder thread: .received = [(label, payload, time)]
+    where label is the (host, port) the client wrote in the SOCKS5-UDP header (None if malformed)."""
+
+    def __init__(self, name="app"):
+        self.name = name
+        self.sock = udp_app_socket()
+        self.addr = self.sock.getsockname()
+        self.received = []
+        self.sent = []            # (target_addr, payload, time)
+        self._cv = threading.Condition()
+        self._stop = False
+        self.sock.settimeout(0.2)
+        self._thr = threading.Thread(target=self._run, name="t2-udpapp-" + name, daemon=True)
+        self._thr.start()
+
+    def _run(self):
+        while not self._stop:
+            try:
+                b, _src = self.sock.recvfrom(70000)
+            except socket.timeout:
+                continue
+            except OSError:
+                if self._stop:
+                    break
+                continue
+            label, payload = None, b
+            try:
+                if len(b) >= 4 and b[:3] == b"\x00\x00\x00":
+                    label, off = decode_socks5_addr(b, 3)
+                    payload = b[off:]
+            except (ValueError, IndexError):
+                label, payload = None, b
+            with self._cv:
+                self.received.append((label, payload, time.monotonic()))
+                self._cv.notify_all()
+        try:
+            self.sock.close()
+        except OSError:
+            pass
+
+    def send(self, client_port, target_addr, payload, atyp=None):
+        self.sent.append((tuple(target_addr), bytes(payload), time.monotonic()))
+        try:
+            return self.sock.sendto(socks5_udp_datagram(target_addr, payload, atyp), (LOOPBACK, client_port))
+        except OSError as e:
+            return e
+
+    def count(self):
+        with self._cv:
+            return len(self.received)
+
+    def wait_count(self, n, timeout=DEFAULT_DEADLINE):
+        end = time.monotonic() + timeout
+        with self._cv:
+            while len(self.received) < n:
+                rem = end - time.monotonic()
+                if rem <= 0:
+                    break
+                self._cv.wait(rem)
+            return len(self.received) >= n
+
+    def close(self):
+        self._stop = True
+        self._thr.join(1.0)
+
+    def __enter__(self):
+        return self
+
+    def __exit__(self, *exc):
+        self.close()
+        return False
+
+
+def run_udp_plan(dep, apps, targets, rounds, round_timeout=1.0, final_wait=3.0, gap=0.003):
+    """rounds: list of rounds; a round is a list of (app_index, target_index, payload).  All
+    datagrams of a round are sent back to back (gap seconds apart); then the runner waits until
+    every echo of the round came back or round_timeout expired (after 3 completely silent rounds
+    it stops waiting per round).  Finally waits up to final_wait for stragglers.
+
+    Returns {"sent": [(app, target, payload)], "target_received": [[payload, ...] per target],
+             "target_sources": [[(ip, port), ...] per target],
+             "app_received": [[(label, payload), ...] per app], "send_errors": [...], "seconds"}"""
+    t0 = time.monotonic()
+    sent = []
+    errors = []
+    silent_rounds = 0
+    echoing = [t.echo for t in targets]
+    for rnd in rounds:
+        before_apps = [a.count() for a in apps]
+        before_tgts = [t.count() for t in targets]
+        want_app = collections.Counter()
+        want_tgt = collections.Counter()
+        for (ai, ti, payload) in rnd:
+            r = apps[ai].send(dep.client_port, targets[ti].addr, payload)
+            if isinstance(r, Exception):
+                errors.append("app%d->target%d %d bytes: %r" % (ai, ti, len(payload), r))
+            else:
+                want_tgt[ti] += 1
+                if echoing[ti]:
+                    want_app[ai] += 1
+            sent.append((ai, ti, bytes(payload)))
+            if gap:
+                time.sleep(gap)
+        if silent_rounds < 3:
+            end = time.monotonic() + round_timeout
+            for ti, n in want_tgt.items():
+                targets[ti].wait_count(before_tgts[ti] + n, max(0.0, end - time.monotonic()))
+            for ai, n in want_app.items():
+                apps[ai].wait_count(before_apps[ai] + n, max(0.0, end - time.monotonic()))
+            progressed = any(a.count() > b for a, b in zip(apps, before_apps)) or \
+                any(t.count() > b for t, b in zip(targets, before_tgts))
+            silent_rounds = 0 if progressed else silent_rounds + 1
+    # stragglers
+    end = time.monotonic() + final_wait
+    exp_t = collections.Counter(ti for _a, ti, _p in sent)
+    exp_a = collections.Counter(ai for ai, ti, _p in sent if echoing[ti])
+    while time.monotonic() < end:
+        if all(targets[ti].count() >= n for ti, n in exp_t.items()) and all(apps[ai].count() >= n for ai, n in exp_a.items()):
+            break
+        time.sleep(0.05)
+    time.sleep(0.15)  # anything extra (duplicates, strays) gets a moment to show up
+    return {"sent": sent,
+            "target_received": [[p for p, _s, _t in list(t.received)] for t in targets],
+            "target_sources": [[s for _p, s, _t in list(t.received)] for t in targets],
+            "app_received": [[(l, p) for l, p, _t in list(a.received)] for a in apps],
+            "target_addrs": [t.addr for t in targets],
+            "send_errors": errors, "seconds": round(time.monotonic() - t0, 3)}
+
+
+def check_udp(obs, select=None, categories=None):
+    """Datagram-preservation property on a run_udp_plan observation.
+
+    select: optional predicate on payload length restricting which SENT datagrams are checked for
+    delivery (strays are only reported when select is None).
+    categories: optional set restricting which problem categories count ("missing", "dup",
+    "stray", "foreign", "mislabelled", "malformed").
+    -> (ok, detail, stats) where stats has delivered/replied/duplicate/... counts."""
+    sent = obs["sent"]
+    addrs = [tuple(a) for a in obs["target_addrs"]]
+    pick = (lambda p: True) if select is None else (lambda p: select(len(p)))
+    problems = []   # (category, message)
+    stats = {"sent": 0, "delivered": 0, "replied": 0, "dup_at_target": 0, "dup_at_app": 0,
+             "mislabelled": 0, "foreign_at_app": 0, "stray_at_target": 0, "stray_at_app": 0, "malformed_at_app": 0}
+    # targets
+    for ti in range(len(addrs)):
+        want = collections.Counter(p for _a, t, p in sent if t == ti and pick(p))
+        got = collections.Counter(p for p in obs["target_received"][ti] if pick(p))
+        stats["sent"] += sum(want.values())
+        for p, n in want.items():
+            g = got.get(p, 0)
+            stats["delivered"] += min(g, n)
+            if g < n:
+                problems.append(("missing", "target%d: %d-byte datagram not delivered" % (ti, len(p))))
+            if g > n:
+                stats["dup_at_target"] += g - n
+                problems.append(("dup", "target%d: %d-byte datagram delivered %d times (want %d)" % (ti, len(p), g, n)))
+        if select is None:
+            for p, g in got.items():
+                if p not in want:
+                    stats["stray_at_target"] += g
+                    problems.append(("stray", "target%d: unexpected %d-byte datagram (head %s)" % (ti, len(p), p[:10].hex())))
+    # apps
+    napps = len(obs["app_received"])
+    all_sent_by = [collections.Counter((addrs[t], p) for a, t, p in sent if a == ai) for ai in range(napps)]
+    for ai in range(napps):
+        want = collections.Counter((addrs[t], p) for a, t, p in sent if a == ai and pick(p))
+        got = collections.Counter()
+        for label, p in obs["app_received"][ai]:
+            if label is None:
+                if select is None:
+                    stats["malformed_at_app"] += 1
+                    problems.append(("malformed", "app%d: malformed datagram of %d bytes" % (ai, len(p))))
+                continue
+            if pick(p):
+                got[(tuple(label), p)] += 1
+        for k, n in want.items():
+            g = got.get(k, 0)
+            stats["replied"] += min(g, n)
+            if g < n:
+                wrong = [l for (l, p), c in got.items() if p == k[1] and l != k[0] and (l, p) not in want]
+                if wrong:
+                    stats["mislabelled"] += 1
+                    problems.append(("mislabelled", "app%d: %d-byte reply labelled %s instead of %s" % (ai, len(k[1]), wrong[0], k[0])))
+                else:
+                    problems.append(("missing", "app%d: %d-byte echo reply not received" % (ai, len(k[1]))))
+            if g > n:
+                stats["dup_at_app"] += g - n
+                problems.append(("dup", "app%d: %d-byte reply delivered %d times (want %d)" % (ai, len(k[1]), g, n)))
+        if select is None:
+            for k, g in got.items():
+                if k in all_sent_by[ai]:
+                    continue
+                owner = [o for o in range(napps) if o != ai and any(p == k[1] and len(p) > 0 for (_l, p) in all_sent_by[o])]
+                if owner:
+                    stats["foreign_at_app"] += g
+                    problems.append(("foreign", "app%d: received app%d's %d-byte reply" % (ai, owner[0], len(k[1]))))
+                elif not any(p == k[1] for (_l, p) in all_sent_by[ai]):
+                    stats["stray_at_app"] += g
+                    problems.append(("stray", "app%d: unexpected %d-byte datagram labelled %s" % (ai, len(k[1]), k[0])))
+    if categories is not None:
+        problems = [(c, m) for c, m in problems if c in categories]
+    agg = collections.Counter(m for _c, m in problems)
+    msgs = ["%s%s" % (m, " (x%d)" % n if n > 1 else "") for m, n in agg.items()]
+    if len(msgs) > 10:
+        msgs = msgs[:10] + ["... %d more kinds" % (len(msgs) - 10)]
+    return (not problems), "; ".join(msgs), stats
+
+
+def probe_tcp(dep, kind="socks5_ipv4", deadline=3.0, payload=b"t2-probe-request", answer=b"t2-probe-answer"):
+    """One small TCP flow through the deployment -> observation with extra key "relayed"."""
+    with TcpTarget() as tgt:
+        obs = run_tcp_flow(dep, tgt, kind, [("app_send", payload), ("target_send", answer), ("drain",), ("target_close",)],
+                           deadline=deadline)
+    ok, detail = check_transparent(obs)
+    obs["relayed"] = ok
+    obs["relay_detail"] = detail
+    return obs
+
+
+def probe_udp(dep, deadline=2.0, payload=b"t2-udp-probe", repeat=2):
+    """Send `repeat` datagrams (0.3 s apart) through the client's SOCKS5-UDP port to an echoing
+    UdpTarget -> {"target_got": n, "replies": n, "labels_ok": bool, "payload_ok": bool, "relayed": bool}"""
+    with UdpTarget() as tgt, UdpApp("probe") as app:
+        for i in range(repeat):
+            app.send(dep.client_port, tgt.addr, payload + b"-%d" % i)
+            time.sleep(0.3)
+        tgt.wait_count(repeat, deadline)
+        app.wait_count(repeat, deadline)
+        got = tgt.payloads()
+        rec = list(app.received)
+    want = [payload + b"-%d" % i for i in range(repeat)]
+    return {"target_got": len(got), "replies": len(rec),
+            "payload_ok": sorted(got) == sorted(want) and sorted(p for _l, p, _t in rec) == sorted(want),
+            "labels_ok": all(l is not None and tuple(l) == tgt.addr for l, _p, _t in rec),
+            "relayed": sorted(got) == sorted(want) and sorted(p for _l, p, _t in rec) == sorted(want)
+            and all(l is not None and tuple(l) == tgt.addr for l, _p, _t in rec)}
